@@ -2,8 +2,9 @@
 
 Three kinds of cases (all plain JSON):
 
-  {"kind": "build",  "spec": I, "rb": b, "removes": [ids]}
-      all four builders on I: nodes, typed edges, the three indices, the
+  {"kind": "build",  "spec": I, "rb": b, "removes": [ids], "other": I2?}
+      all four builders on I (then, with "other", all four on I2 BEFORE the graphs of I are
+      inspected): nodes, typed edges, the three indices, the
       removed flags, the DiGraph's node set; then `remove_node` for each id on
       a fresh graph of builder rb (ties Graph.remove_node, reused by C17).
   {"kind": "solved", "spec": I, "picks": [[a, b, delay], ...], "rb": 4, "removes": [...]}
@@ -258,6 +259,9 @@ class C16(Check):
                 rb = rng.randrange(4)
                 case = {"kind": "build", "spec": spec, "rb": rb,
                         "removes": self.gen_removes(rng, self.n_nodes(spec, rb))}
+                if rng.random() < 0.3:
+                    case["other"] = self.gen_spec(rng)
+                    self.note("build_then_other_instance_then_inspect")
             else:
                 positive = rng.random() < 0.85
                 spec = self.gen_spec(rng, positive=positive)
@@ -291,10 +295,26 @@ class C16(Check):
 
         instance = common.build_instance(case["spec"])
         if case["kind"] == "build":
-            outs = []
+            built = []
             for name in BUILDERS:
                 try:
-                    outs.append(enc_graph(getattr(graphs, name)(instance)))
+                    built.append(getattr(graphs, name)(instance))
+                except Exception:  # pylint: disable=broad-except
+                    built.append(None)
+            if case.get("other"):
+                # graphs of ANOTHER instance built afterwards must leave the first ones alone: the graphs below
+                # are inspected after these builds (a builder is a function of its instance, with no memory)
+                other = common.build_instance(case["other"])
+                keep = []
+                for name in BUILDERS:
+                    try:
+                        keep.append(getattr(graphs, name)(other))
+                    except Exception:  # pylint: disable=broad-except
+                        pass
+            outs = []
+            for g in built:
+                try:
+                    outs.append(enc_graph(g) if g is not None else [0])
                 except Exception:  # pylint: disable=broad-except
                     outs.append([0])
             try:
@@ -492,6 +512,10 @@ class C16(Check):
                 c["picks"] = (c["picks"] + [[0, 0, 0]] * total)[:total]
             return c
 
+        if case.get("other"):
+            yield {k: v for k, v in case.items() if k != "other"}
+            if len(case["other"]) > 1:
+                yield dict(case, other=case["other"][:-1])
         if case.get("removes"):
             yield dict(case, removes=case["removes"][:-1])
             yield dict(case, removes=case["removes"][1:])
